@@ -88,7 +88,7 @@ func VerifC12SortKeyB() {
 // VerifC12KeyNotation: an item written under a number-typed key is found under the same value in another notation.
 func VerifC12KeyNotation() {
 	c := vNumTable(types.ScalarAttributeTypeN)
-	pairs := [][2]string{{"1", "1.0"}, {"1", "01"}, {"10", "1e1"}, {"0", "-0"}}
+	pairs := [][2]string{{"1", "1.0"}, {"1", "01"}, {"10", "1e1"}, {"0", "-0"}, {"10000000000000000", "1e16"}, {"-40000000000000000", "-4e16"}, {"15000000000", "1.5e10"}, {"9007199254740992", "9.007199254740992e15"}}
 	p := pairs[nd.Choice("pair", len(pairs))]
 	nd.Assert(vPut(c, vItem{"p": vS("a"), "s": vN(p[0]), "v": vS("x")}) == nil, "setup-put")
 	got, err := vGet(c, vItem{"p": vS("a"), "s": vN(p[1])})
